@@ -43,10 +43,12 @@ CONSTANTS
   Alphabet,     \* "small" | "full"
   Cfgs,         \* names of implementation configurations carried along
   Sw,           \* cfg -> [kindless, all, rfilter, bareident, insnchk : BOOLEAN]
-  Emit          \* TRUE: print the history of every complete behaviour (generation mode)
+  Emit,         \* TRUE: print the history of every complete behaviour (generation mode)
+  TwoPhase      \* TRUE (simulation only): a step first draws the request class, then the request, so
+                \* that TLC's uniform choice among successors does not drown `continue` in set requests
 
-VARIABLES ref, impl, nreq, last, hist
-vars == <<ref, impl, nreq, last, hist>>
+VARIABLES ref, impl, nreq, last, hist, cls
+vars == <<ref, impl, nreq, last, hist, cls>>
 
 Opt == {"none", "cfalse", "cparen", "cbare", "hit2", "log"}
 N == Len(Exec)
@@ -263,7 +265,7 @@ DataReqs == {{}} \cup {{d} : d \in DataKnown} \cup {{d, u} : d \in DataKnown, u 
 
 -----------------------------------------------------------------------------
 Init == /\ ref = RefInit /\ impl = [c \in Cfgs |-> IInit] /\ nreq = 0
-        /\ last = [kind |-> "init"] /\ hist = <<>>
+        /\ last = [kind |-> "init"] /\ hist = <<>> /\ cls = ""
 
 Pairs(f) == {<<x, f[x]>> : x \in DOMAIN f}
 Log(cmd, arg, robs, iobs) == hist' = IF Emit THEN Append(hist, [cmd |-> cmd, arg |-> arg, ref |-> robs, impl |-> iobs]) ELSE hist
@@ -309,13 +311,22 @@ Restart ==
   /\ ref.st \in {"stopped", "exited"} /\ RestartUnambiguous(ref)
   /\ RunAct("restart", 0, RRun(ref, 1, ref.hits, <<>>), [c \in Cfgs |-> IRestart(Sw[c], impl[c])])
 
-Next == \/ \E r \in SrcReqs : SetBreakpoints(r)
-        \/ \E r \in FnReqs : SetFunctionBreakpoints(r)
-        \/ \E r \in InsnReqs : SetInstructionBreakpoints(r)
-        \/ \E r \in DataReqs : SetDataBreakpoints(r)
-        \/ ConfigurationDone
-        \/ Continue
-        \/ Restart
+Do(k) == \/ k = "src" /\ \E r \in SrcReqs : SetBreakpoints(r)
+         \/ k = "fn" /\ \E r \in FnReqs : SetFunctionBreakpoints(r)
+         \/ k = "insn" /\ \E r \in InsnReqs : SetInstructionBreakpoints(r)
+         \/ k = "data" /\ \E r \in DataReqs : SetDataBreakpoints(r)
+         \/ k \in {"go", "go2"} /\ (ConfigurationDone \/ Continue)
+         \/ k = "restart" /\ Restart
+Classes == {"src", "fn", "insn", "data", "go", "go2", "restart"}
+ClassEnabled(k) == CASE k \in {"go", "go2"} -> ref.st # "exited"
+                     [] k = "restart" -> ref.st # "unload" /\ RestartUnambiguous(ref)
+                     [] OTHER -> TRUE
+Pick == /\ cls = ""
+        /\ nreq < MaxReq
+        /\ \E k \in Classes : ClassEnabled(k) /\ cls' = k
+        /\ UNCHANGED <<ref, impl, nreq, last, hist>>
+Next == IF TwoPhase THEN Pick \/ (cls # "" /\ Do(cls) /\ cls' = "")
+        ELSE (\E k \in Classes \ {"go2"} : Do(k)) /\ UNCHANGED cls
 Spec == Init /\ [][Next]_vars
 
 -----------------------------------------------------------------------------
@@ -351,5 +362,5 @@ InSync == \A c \in Cfgs : impl[c].st = ref.st /\ impl[c].pos = ref.pos
 -----------------------------------------------------------------------------
 (* generation: every complete behaviour prints its history once            *)
 EmitHist == (Emit /\ nreq = MaxReq) => PrintT(<<"BEH", ToJson(hist)>>)
-View == <<ref, impl, nreq, last>>
+View == <<ref, impl, nreq, last, cls>>
 =============================================================================
